@@ -150,6 +150,15 @@ def correspondence(ctx, model_ok=True):
                 elif o == 5 and length > 0:
                     idx = r.below(length); val = r.below(100)
                     ops.append("set %d %d" % (idx, val)); src += "v[%d] = %d;\n" % (idx, val)
+            if r.chance(1, 2):
+                # a KEPT iterator: run it to exhaustion (and once beyond), grow the vector, and ask again - the cursor is an index, so
+                # the elements pushed after it reported the end are delivered next, each once
+                for _ in range(length + 1 + r.below(2)):
+                    ops.append("next"); src += "print(it.next());\n"
+                for _ in range(1 + r.below(2)):
+                    val = r.below(100); ops.append("push %d" % val); src += "v.push(%d);\n" % val; length += 1
+                for _ in range(2 + r.below(2)):
+                    ops.append("next"); src += "print(it.next());\n"
             reqs.append("vecops " + ";".join(ops))
         else:
             xs = [r.below(20) - 5 for _ in range(r.below(7))]
@@ -209,7 +218,7 @@ def correspondence(ctx, model_ok=True):
                 exp = "-"
             if c[0] != "ok" or got != exp:
                 failures.append({"what": "iterator model and implementation disagree", "request": req, "model": a, "real": got, "status": c[0], "program": src,
-                                 "signature": "model-vs-real iter " + req.split()[0], "failing_input": c[0] != "ok"})
+                                 "signature": "model-vs-real iter " + req.split()[0], "failing_input": True})
     scen = [(n, s, {}) for n, s, _ in SCENARIOS]
     for mode in ({"gc": "default"}, {"gc": "always", "quarantine": 1}):
         sres, _ = progs.run_programs(ctx.runner, scen, mode, tag="s")
